@@ -30,7 +30,7 @@ theorem ops_as_modelled :
     ∧ invalidChecksUuidFirst = true ∧ refreshChecksUuidFirst = true
     ∧ replFailClasses = [.recycled, .conflict] ∧ replFailAttr = .sourceUuid
     ∧ sealAttrs = [.lastModifiedCid, .createdAtCid]
-    ∧ validateReturns = [.noClassFound, .okConflict, .noClassFound, .invalidClass,
+    ∧ validateReturns = [.noClassFound, .okConflict, .noClassFound, .noClassFound, .invalidClass,
         .supplementsNotSatisfied, .excludesNotSatisfied, .corrupted, .missingMustAttribute,
         .phantomAttribute, .avaCheck, .invalidAttribute, .corrupted, .avaCheck,
         .attributeNotValidForClass, .okEnd] :=
